@@ -149,6 +149,10 @@ class Walker:
         self.obj_params = self._object_params()
         self.nlid = 0
         self.ncount = 0
+        self.state_reg = {}      # state atom -> (index base symbol, offset)
+        self.lin = {}            # accumulator -> {dof offset: P (roles: S)}
+        self.lin_lines = {}
+        self.lin_maps = {}
         for k, v in self.consts.items():
             self.env[k] = P.const(Fraction(repr(v)))
 
@@ -340,6 +344,10 @@ class Walker:
 
     def leaf_call(self, node):
         name = node.func.id if isinstance(node.func, ast.Name) else None
+        if name is None:
+            # method / module calls (np.zeros, np.ascontiguousarray, x.reshape ...)
+            # produce arrays or objects, never scalars of the arithmetic
+            raise Unsupported('object-valued call ' + ast.unparse(node.func))
         if name in INTEGRALS:
             d1, d2, kind = INTEGRALS[name]
             args = node.args
@@ -405,6 +413,15 @@ class Walker:
             if idx[1] is not None and idx[1] != flags[1]:
                 self.issue('direction', node, '%s[%s]: index runs over %s-terms but the vector holds %s-functions' % (base.id, ast.unparse(node.slice), idx[1], flags[1]))
             return P.sym(self.atoms.point(flags[1], Factor(idx[0], flags[2], flags[0], d), at))
+        if isinstance(base, ast.Name) and base.id in self.state_arrays:
+            try:
+                iv = self.ev(node.slice)
+            except (Unsupported, NonMonomialDivision):
+                return None
+            off, b = MatrixKernel._split(iv)
+            name = '%s[%s]' % (base.id, nfs(iv))
+            self.state_reg[name] = (b, off)
+            return P.sym(name)
         # generic: base value + normal forms of the indices
         try:
             if isinstance(base, ast.Name):
@@ -556,6 +573,8 @@ class Walker:
                 self.env.pop(name, None)
                 return
             self.accum.setdefault(name, []).append(('add', v, tuple(self.loops), st.lineno, dict(self.frame), tuple(self.guards)))
+            if self.state_arrays and any(a in self.state_reg for a in v.atoms()):
+                return self.accumulate_state(name, v, st)
             # pure counters (c += 1): every increment opens a new generation so
             # that stores at 'the same position' can be recognised
             if v.t and set(v.t) == {()}:
@@ -564,6 +583,41 @@ class Walker:
                 return
             cur = self.env.get(name, P())
             self.env[name] = cur + v
+
+    def accumulate_state(self, name, v, st):
+        """``acc += c[col+d]*phi`` inside the series loops: the accumulated
+        quantity is the linear form sum_S c_{S,d} phi_S.  Monomials that are not
+        of degree exactly one in the amplitude vector are reported (a power of a
+        series *term* is not a function of the field)."""
+        cur = self.env.get(name, P())
+        tot = P.sym('@' + name)
+        if cur.t and cur != tot:
+            # a value assigned before the series loop other than zero
+            self.issue('accumulator-base', st, '%s starts from %r before the series accumulation' % (name, cur))
+        lin = self.lin.setdefault(name, {})
+        self.lin_lines.setdefault(name, st.lineno)
+        for mono, c in v.t.items():
+            st_atoms = [(s, e) for s, e in mono if s in self.state_reg]
+            deg = sum(e for s, e in st_atoms)
+            if deg != 1:
+                self.issue('nonlinear-accumulation', st,
+                           '%s accumulates a term of degree %d in the amplitudes inside the series loop: %s' % (
+                               name, deg, '*'.join('%s^%d' % x for x in st_atoms)))
+                continue
+            atom = st_atoms[0][0]
+            base, off = self.state_reg[atom]
+            fdef = self.frame.get(base)
+            if fdef is None:
+                self.issue('state-index', st, 'no definition of the amplitude index base %s' % base)
+                continue
+            mapping = {tok: 'S' for tok in self.loop_tokens(fdef)}
+            rest = P({tuple(x for x in mono if x[0] != atom): c})
+            res, unresolved = self.resolve(rest, mapping)
+            if unresolved:
+                self.issue('stale-index', st, '%s: series factor uses an index that is not the amplitude index' % name)
+            lin[off] = lin.get(off, P()) + res
+            self.lin_maps.setdefault(name, []).append((fdef, mapping, st.lineno))
+        self.env[name] = tot
 
     # ------------------------------------------------------------------
     # role resolution
@@ -614,13 +668,13 @@ class MatrixKernel:
     """coo-matrix kernel: emits grouped by (row offset, column offset) with
     roles resolved.  ``blocks`` maps (P, Q) -> list of (polynomial, Emit)."""
 
-    def __init__(self, unit, fname):
+    def __init__(self, unit, fname, state_arrays=()):
         self.unit = unit
         self.fname = fname
         self.fn = unit.func(fname)
         if self.fn is None:
             raise KeyError('%s not found in %s' % (fname, unit.rel))
-        self.w = Walker(unit, self.fn).run()
+        self.w = Walker(unit, self.fn, state_arrays=state_arrays).run()
         self.issues = list(self.w.issues)
         coo = find_coo(self.fn)
         if len(coo) != 1:
@@ -694,6 +748,51 @@ class MatrixKernel:
         es = self.blocks.get(pq, [])
         tot = P()
         for e in es:
+            tot = tot + e.resolved
+        return tot
+
+
+class VectorKernel:
+    """dense-vector kernel (calc_fint): emits ``vec[base+d] += E``; the loop
+    indices of ``base`` are the row role A.  ``entries`` maps d -> [Emit]"""
+
+    def __init__(self, unit, fname, array, state_arrays=()):
+        self.unit = unit
+        self.fname = fname
+        self.fn = unit.func(fname)
+        if self.fn is None:
+            raise KeyError('%s not found in %s' % (fname, unit.rel))
+        self.w = Walker(unit, self.fn, state_arrays=state_arrays).run()
+        self.issues = list(self.w.issues)
+        self.array = array
+        self.entries = {}
+        self.other_arrays = set()
+        w = self.w
+        for e in w.emits:
+            if e.array != array:
+                self.other_arrays.add(e.array)
+                continue
+            try:
+                iv = w.ev(e.index_nodes[0])
+            except (Unsupported, NonMonomialDivision):
+                self.issues.append(Issue('emit', e.line, 'cannot read the index of %s' % array))
+                continue
+            off, base = MatrixKernel._split(iv)
+            # the walker's env may have moved on; use the frame captured at the emit
+            fdef = e.frame.get(base) if base else None
+            if fdef is None:
+                self.issues.append(Issue('emit', e.line, 'index of %s is not base+offset with a reaching definition' % array))
+                continue
+            mapping = {tok: 'A' for tok in w.loop_tokens(fdef)}
+            val, unresolved = w.resolve(e.value, mapping)
+            if unresolved:
+                self.issues.append(Issue('stale-index', e.line, 'entry %d uses a series index that is not the row index' % off))
+            e.off, e.base, e.fdef, e.mapping, e.resolved = off, base, fdef, mapping, val
+            self.entries.setdefault(off, []).append(e)
+
+    def entry(self, d):
+        tot = P()
+        for e in self.entries.get(d, []):
             tot = tot + e.resolved
         return tot
 
